@@ -335,4 +335,115 @@ theorem demux_stop_ne_panic {s : Bytes} {h : Header} {ts : List Tag} {st : Stop}
   rw [e3] at this
   exact this
 
+/-! ### frame and cut (truncated files) — the shapes C08 needs -/
+
+
+/-- Frame for one whole step: a successful `ReadTagHeader`+`ReadTag` is unaffected by more bytes behind it. -/
+theorem readTagFull_frame {s r : Bytes} {t : Tag} (x : Bytes) (h : readTagFull s = ok (t, r)) :
+    readTagFull (s ++ x) = ok (t, r ++ x) := by
+  unfold readTagFull at h ⊢
+  obtain ⟨⟨hd, s1⟩, h1, h'⟩ := bind_eq_ok.mp h
+  obtain ⟨⟨b, s2⟩, h2, h''⟩ := bind_eq_ok.mp h'
+  simp only [pure_eq, ok.injEq, Prod.mk.injEq] at h''
+  obtain ⟨rfl, rfl⟩ := h''
+  have f1 : readTagHeader (s ++ x) = ok (hd, s1 ++ x) := by
+    unfold readTagHeader at h1 ⊢
+    obtain ⟨⟨p, r1⟩, c1, e⟩ := bind_eq_ok.mp h1
+    rw [copyN_frame x c1]
+    obtain ⟨b0, b1, b2, b3, b4, b5, b6, b7, b8, b9, b10, rfl⟩ := list_len11 (copyN_ok c1).1
+    simp only [pure_eq, ok.injEq, Prod.mk.injEq] at e
+    obtain ⟨rfl, rfl⟩ := e
+    simp
+  have f2 : readTag hd.size (s1 ++ x) = ok (b, s2 ++ x) := by
+    unfold readTag at h2 ⊢
+    obtain ⟨⟨p, r1⟩, c1, e⟩ := bind_eq_ok.mp h2
+    rw [copyN_frame x c1]
+    simp only [bind_ok] at e ⊢
+    split at e
+    · simp at e
+    · rename_i hlt
+      simp only [pure_eq, ok.injEq, Prod.mk.injEq] at e
+      obtain ⟨rfl, rfl⟩ := e
+      rw [if_neg hlt]; rfl
+  rw [f1]; simp only [bind_ok]; rw [f2]; rfl
+
+/-- A strict prefix of one muxed tag is never a tag: the step ends with `io.EOF`. -/
+theorem readTagFull_cut (t : Tag) (h : t.WF) (k : Nat) (hk : k < 15 + t.body.length) :
+    readTagFull ((writeTag t).take k) = err .eof := by
+  unfold readTagFull
+  by_cases h11 : k < 11
+  · have : readTagHeader ((writeTag t).take k) = err .eof := by
+      unfold readTagHeader; rw [copyN_short (by simp; omega)]; rfl
+    rw [this]; rfl
+  · have e : (writeTag t).take k =
+        tagHeader t.ty t.ts t.body.length ++ (t.body ++ prevTagSize t.body.length).take (k - 11) := by
+      unfold writeTag
+      rw [List.append_assoc, List.take_append, tagHeader_length, List.take_of_length_le (by simp; omega)]
+    rw [e, readTagHeader_tagHeader _ _ _ _ h.1 h.2]
+    simp only [bind_ok]
+    have : readTag t.body.length ((t.body ++ prevTagSize t.body.length).take (k - 11)) = err .eof := by
+      unfold readTag; rw [copyN_short (by simp; omega)]; rfl
+    rw [this]; rfl
+
+/-- The tags lying wholly inside the first `k` bytes of `writeTags tags`, in order. -/
+def wholeTags : Nat → List Tag → List Tag
+  | _, [] => []
+  | k, t :: ts => if 15 + t.body.length ≤ k then t :: wholeTags (k - (15 + t.body.length)) ts else []
+
+/-- Cut: on the first `k` bytes of a muxed tag sequence the loop returns exactly the tags wholly
+contained in those bytes, in order, then `io.EOF` — nothing truncated, duplicated or fabricated. -/
+theorem readTags_cut (tags : List Tag) (hwf : ∀ t ∈ tags, t.WF) :
+    ∀ k fuel, ((writeTags tags).take k).length < fuel →
+      readTags fuel ((writeTags tags).take k) = (wholeTags k tags, .err .eof) := by
+  induction tags with
+  | nil =>
+    intro k fuel hf
+    cases fuel with
+    | zero => simp at hf
+    | succ f => simp [writeTags, readTags, readTagFull_nil, wholeTags]
+  | cons t ts ih =>
+    intro k fuel hf
+    cases fuel with
+    | zero => simp at hf
+    | succ f =>
+      have ht := hwf t (by simp)
+      have hts : ∀ x ∈ ts, x.WF := fun x hx => hwf x (by simp [hx])
+      by_cases hk : 15 + t.body.length ≤ k
+      · have e : (writeTags (t :: ts)).take k = writeTag t ++ (writeTags ts).take (k - (15 + t.body.length)) := by
+          simp only [writeTags]
+          rw [List.take_append, writeTag_length, List.take_of_length_le (by simp; omega)]
+        rw [e] at hf ⊢
+        simp only [List.length_append, writeTag_length] at hf
+        simp only [readTags, readTagFull_writeTag t _ ht, wholeTags, if_pos hk]
+        rw [ih hts _ f (by omega)]
+      · have e : (writeTags (t :: ts)).take k = (writeTag t).take k := by
+          simp only [writeTags]
+          rw [List.take_append, writeTag_length, show k - (15 + t.body.length) = 0 by omega]
+          simp
+        rw [e]
+        simp only [readTags, readTagFull_cut t ht k (by omega), wholeTags, if_neg hk]
+
+theorem demux_cut (hv ha : Bool) (tags : List Tag) (hwf : ∀ t ∈ tags, t.WF) (k : Nat) :
+    demux ((mux hv ha tags).take k) =
+      if k < 13 then err .eof
+      else ok ({ version := 1, hasVideo := hv, hasAudio := ha }, wholeTags (k - 13) tags, .err .eof) := by
+  unfold demux mux
+  by_cases hk : k < 13
+  · rw [if_pos hk]
+    have : readHeader ((writeHeader hv ha ++ writeTags tags).take k) = err .eof := by
+      unfold readHeader; rw [copyN_short (by simp; omega)]; rfl
+    rw [this]; rfl
+  · rw [if_neg hk, List.take_append, writeHeader_length, List.take_of_length_le (by simp; omega),
+      readHeader_writeHeader]
+    simp only [bind_ok, pure_eq]
+    rw [readTags_cut tags hwf _ _ (Nat.lt_succ_self _)]
+
+theorem wholeTags_prefix : ∀ (k : Nat) (tags : List Tag), wholeTags k tags <+: tags
+  | _, [] => by simp [wholeTags]
+  | k, t :: ts => by
+    unfold wholeTags
+    split
+    · exact (List.prefix_cons_inj t).mpr (wholeTags_prefix _ ts)
+    · exact List.nil_prefix
+
 end Oryx.Flv
